@@ -136,6 +136,12 @@ def cases(ctx):
     for bid, ops in OPS.items():
         for n, op in enumerate(ops):
             out.append(step_case(bid, n, op, L))
+            if not ctx.quick:
+                c = step_case(bid, n, op, L)
+                c["id"] += ".doc2"
+                c["body"] = c["body"].replace("doc = " + (DOC_DEEP if ('deep' in bid or 'containers' in bid or 'extended' in bid) else DOC),
+                                              "doc = " + (DOC2 if not ('deep' in bid or 'containers' in bid or 'extended' in bid) else DOC_DEEP.replace("'true'", "'x'").replace("'3'", "'true'")))
+                out.append(c)
     out.append(data_step_case("rule", "objs[-1].test(wrapped)", L, "test"))
     out.append(data_step_case("schema", "objs[-1].validate(wrapped)", L, "validate"))
     out.append(data_step_case("schema.cast", "objs[-1].validate(wrapped)", L, "validate.cast"))
